@@ -23,6 +23,7 @@ type TrieOp struct {
 	Arg      []byte `json:"arg,omitempty"`      // the sequence
 	ArgQ     string `json:"arg_q,omitempty"`    // readable copy, ignored on replay
 	Scribble bool   `json:"scribble,omitempty"` // overwrite the caller's buffer right after the call returned
+	Reuse    bool   `json:"reuse,omitempty"`    // the argument is passed in the caller's one long-lived buffer (as a loop over a read buffer does)
 }
 
 // TrieCase is a history plus the observation universe and the key order plan.
@@ -51,6 +52,9 @@ func (t *TrieCase) String() string {
 		fmt.Fprintf(&b, "%s(%q)", o.Op, o.Arg)
 		if o.Scribble {
 			b.WriteString("~")
+		}
+		if o.Reuse {
+			b.WriteString("&")
 		}
 		b.WriteString(" ")
 	}
@@ -179,8 +183,8 @@ func observeTrie(t *trie.Trie, m setModel, uni []string, step int, who string) *
 	}
 	var seen []string
 	t.ForEach(func(b []byte) bool {
-		seen = append(seen, string(b)) // the slice may be overwritten by later iterations: copy now
-		return true
+		seen = append(seen, string(b))  // the slice may be overwritten by later iterations: copy now
+		return len(seen) <= len(m)+1000 // a walk that never ends is cut off here and reported by the count below
 	})
 	sort.Strings(seen)
 	want := m.sorted()
@@ -221,14 +225,33 @@ func execC15Trace(c *Case, tr *trieTrace) (v *Verdict) {
 		return v
 	}
 	stateHash := func() uint64 { return core.HashString(strings.Join(m.sorted(), "\x00|")) }
+	shared := make([]byte, 0, 256) // the caller's long-lived buffer
+	var held [][]byte              // JSON forms obtained earlier and still held by the caller
 	for i, op := range tc.Ops {
 		before := uint64(0)
 		if tr != nil {
 			before = stateHash()
 		}
 		switch op.Op {
+		case "fanout":
+			// 256 Adds: every byte value appended to the prefix (one observation afterwards)
+			for b := 0; b < 256; b++ {
+				x := byte(b*167 + 13) // a fixed permutation of the byte values
+				w := append(append([]byte{}, op.Arg...), x)
+				t.Add(w)
+				m.add(w)
+			}
+			if tr != nil {
+				tr.probes.Inc("probe/node_with_all_256_children")
+			}
 		case "add", "del":
 			buf := append([]byte{}, op.Arg...)
+			if op.Reuse && len(op.Arg) <= cap(shared) {
+				buf = append(shared[:0], op.Arg...) // same backing array as the previous reused argument
+				if tr != nil {
+					tr.probes.Inc("fault_fired/caller_buffer_reused_for_next_argument")
+				}
+			}
 			if op.Op == "add" {
 				t.Add(buf)
 				m.add(op.Arg)
@@ -261,13 +284,34 @@ func execC15Trace(c *Case, tr *trieTrace) (v *Verdict) {
 					tr.probes.Inc("fault_fired/caller_buffer_scribbled")
 				}
 			}
-		case "restart", "restart0":
-			data, err := json.Marshal(t)
+		case "restart", "restart0", "restartm":
+			var data []byte
+			var err error
+			if op.Op == "restartm" {
+				// the exported method called directly, its result held while it is called again
+				// (on this trie and on an unrelated one) before the first result is used
+				data, err = t.MarshalJSON()
+				if err == nil {
+					other := trie.New()
+					other.Add([]byte("zzzzzzzzzzzzzzzzzzzzzzzzzzzzzzzzzzzzzzzzzzzzzzzzzzzzzzzzzzzzzzzz"))
+					other.MarshalJSON()
+					second, err2 := t.MarshalJSON()
+					if err2 != nil {
+						err = err2
+					}
+					held = append(held, second)
+					if tr != nil {
+						tr.probes.Inc("fault_fired/json_form_held_across_later_marshal_calls")
+					}
+				}
+			} else {
+				data, err = json.Marshal(t)
+			}
 			if err != nil {
 				return &Verdict{Clause: "C15.json", Key: "C15.json", Detail: fmt.Sprintf("step %d: MarshalJSON failed: %v", i, err)}
 			}
 			var t2 *trie.Trie
-			if op.Op == "restart" {
+			if op.Op != "restart0" {
 				t2 = trie.New()
 			} else {
 				t2 = &trie.Trie{}
@@ -342,9 +386,16 @@ func shrinkTrie(c *Case, try func(*Case) bool) bool {
 			}
 			any = true
 		}
-		if c.Trie.Ops[i].Op == "restart0" {
+		if c.Trie.Ops[i].Op == "restart0" || c.Trie.Ops[i].Op == "restartm" {
 			d := c.Clone()
 			d.Trie.Ops[i].Op = "restart"
+			if try(d) {
+				any = true
+			}
+		}
+		if c.Trie.Ops[i].Reuse {
+			d := c.Clone()
+			d.Trie.Ops[i].Reuse = false
 			if try(d) {
 				any = true
 			}
@@ -393,16 +444,18 @@ func genTrieCase(r *core.Rng, depth int) *TrieCase {
 	pDel := 0.15 + 0.4*r.Float64()
 	pRestart := 0.05 + 0.2*r.Float64()
 	pScribble := r.Float64() * 0.6
+	pReuse := 0.0
+	if r.Chance(0.4) {
+		pReuse = 0.3 + 0.7*r.Float64()
+	}
+	fanout := r.Chance(0.02) // one node with all 256 children
 	var words [][]byte
 	n := r.Range(1, depth)
 	for i := 0; i < n; i++ {
 		x := r.Float64()
 		switch {
 		case x < pRestart:
-			op := "restart"
-			if r.Chance(0.25) {
-				op = "restart0"
-			}
+			op := core.Pick(r, []string{"restart", "restart", "restart0", "restartm"})
 			tc.Ops = append(tc.Ops, TrieOp{Op: op})
 		default:
 			var w []byte
@@ -433,7 +486,17 @@ func genTrieCase(r *core.Rng, depth int) *TrieCase {
 			if len(w) > 0 {
 				words = append(words, w)
 			}
-			tc.Ops = append(tc.Ops, TrieOp{Op: op, Arg: w, Scribble: r.Chance(pScribble)})
+			tc.Ops = append(tc.Ops, TrieOp{Op: op, Arg: w, Scribble: r.Chance(pScribble), Reuse: r.Chance(pReuse)})
+		}
+		if fanout && i == n/2 {
+			// every byte value under one prefix: a node with the maximal number of children
+			var p []byte
+			if len(words) > 0 {
+				p = words[r.Intn(len(words))]
+				p = p[:r.Intn(len(p)+1)]
+			}
+			tc.Ops = append(tc.Ops, TrieOp{Op: "fanout", Arg: append([]byte{}, p...)})
+			tc.MaxLen = 70 // the universe is then derived from the arguments, not enumerated
 		}
 	}
 	return tc
